@@ -44,7 +44,8 @@ pub fn run(rep: &mut Rep) {
         let seed = rep.seed;
         let d = if ci == 3 || ci == 5 || ci == 0 { depth } else { depth - 1 };
         let body = |rep: &mut Rep, ch: &mut Chooser| {
-            let mut w = World::boot(WorldCfg { seed, sei: Some(interval), ..Default::default() });
+            // the first connection is established by connect() or, in every second configuration, through authorize()
+            let mut w = World::boot(WorldCfg { seed, sei: Some(interval), via_auth: Some(ci % 2 == 1), ..Default::default() });
             let acts = run_path_nofinish(&mut w, &a, ch);
             if ch.probe {
                 return;
@@ -73,7 +74,12 @@ pub fn run(rep: &mut Rep) {
             w.settle_check();
             let exp = expired(over.unwrap_or(interval), ago);
             let (pubs, rels) = w.unfinished();
-            let resumed = w.resume_full(ResumeOpts { secs_ago: ago, sei: Some(interval), connack_sei: over, receive_max: rmax, max_packet: mps, expect_expired: exp, plain: false });
+            // every third case re-establishes the connection through an extended authentication exchange
+            let via_auth = (acts.len() + ci) % 3 == 2;
+            if via_auth {
+                rep.add("resumptions_through_authorize", 1);
+            }
+            let resumed = w.resume_full(ResumeOpts { secs_ago: ago, sei: Some(interval), connack_sei: over, receive_max: rmax, max_packet: mps, expect_expired: exp, plain: false, via_auth });
             if rmax.is_some() {
                 rep.add("resumptions_with_connack_receive_maximum", 1);
                 if !exp && (pubs.len() + rels.len()) as u32 > rmax.unwrap() as u32 {
@@ -105,7 +111,7 @@ pub fn run(rep: &mut Rep) {
                 w.eof();
                 w.settle_check();
                 let (p2, r2) = w.unfinished();
-                let again = w.resume_full(ResumeOpts { secs_ago: if interval == NEVER { 5 } else { 1 }, sei: Some(interval), connack_sei: over, receive_max: rmax, max_packet: mps, expect_expired: false, plain: false });
+                let again = w.resume_full(ResumeOpts { secs_ago: if interval == NEVER { 5 } else { 1 }, sei: Some(interval), connack_sei: over, receive_max: rmax, max_packet: mps, expect_expired: false, plain: false, via_auth: false });
                 rep.add("second_resumptions", 1);
                 rep.add("publishes_expected_resent", p2.len() as i64);
                 rep.add("pubrels_expected_resent", r2.len() as i64);
